@@ -174,13 +174,26 @@ func (w *MarkdownWriter) writeHeading(para *document.Paragraph, style string) er
 		level = 6
 	}
 
-	text := strings.TrimSpace(w.extractParagraphText(para))
+	// 标题本身就是粗体（"#" 已经表达了这一点）：标题里的Run不再写粗体标记，
+	// 这样混有非粗体Run的标题转换回来再导出也得到同样的文字
+	heading := *para
+	heading.Runs = make([]document.Run, len(para.Runs))
+	for i, run := range para.Runs {
+		if run.Properties != nil && run.Properties.Bold != nil {
+			props := *run.Properties
+			props.Bold = nil
+			run.Properties = &props
+		}
+		heading.Runs[i] = run
+	}
+	text := strings.TrimSpace(w.extractParagraphText(&heading))
 	if text == "" {
 		return nil
 	}
 
 	if w.opts.UseSetext && level <= 2 {
-		// 使用Setext样式
+		// 使用Setext样式；标题文字在行首，"- x" 之类的开头要转义，否则被解析成列表
+		text = escapeLineStart(text)
 		w.output.WriteString(text + "\n")
 		if level == 1 {
 			w.output.WriteString(strings.Repeat("=", setextLength(text)) + "\n\n")
@@ -579,7 +592,7 @@ func (w *MarkdownWriter) extractHeaderCellText(cell *document.TableCell) string 
 			result.WriteString(w.formatRunTextWith(&para.Runs[i], false))
 		}
 	}
-	return strings.TrimSpace(strings.ReplaceAll(result.String(), "\n", " "))
+	return escapeCellPipes(strings.TrimSpace(strings.ReplaceAll(result.String(), "\n", " ")))
 }
 
 // extractCellText 提取单元格文本
@@ -600,7 +613,23 @@ func (w *MarkdownWriter) extractCellText(cell *document.TableCell) string {
 	text = strings.ReplaceAll(text, "\n", " ")
 	text = strings.TrimSpace(text)
 
-	return text
+	return escapeCellPipes(text)
+}
+
+// escapeCellPipes 转义单元格文字里还没有转义的竖线：行内代码里的竖线不经过 markdownEscaper，
+// 但GFM表格在解析行内内容之前就按竖线切分单元格
+func escapeCellPipes(text string) string {
+	if !strings.Contains(text, "|") {
+		return text
+	}
+	var result strings.Builder
+	for i := 0; i < len(text); i++ {
+		if text[i] == '|' && (i == 0 || text[i-1] != '\\') {
+			result.WriteByte('\\')
+		}
+		result.WriteByte(text[i])
+	}
+	return result.String()
 }
 
 // getParagraphStyle 获取段落样式
